@@ -402,8 +402,13 @@ func (b *Blockchain) L1Head() (core.L1Head, error) {
 }
 
 func (b *Blockchain) SetL1Head(update *core.L1Head) error {
+	// Write first, announce second: a subscriber that answers the event by reading the L1 head
+	// from the database (rpc transaction status) must find the head the event is about.
+	if err := core.WriteL1Head(b.database, update); err != nil {
+		return err
+	}
 	b.l1HeadFeed.Send(update)
-	return core.WriteL1Head(b.database, update)
+	return nil
 }
 
 // Store takes a block and state update and performs sanity checks before putting in the database.
